@@ -50,6 +50,73 @@ CLAIMED['C18'] = dict(
          'BaseException that is not an Exception (KeyboardInterrupt from a collector) leaves tmp behind — outside the stated fault classes, proved as a documented limit.',
     ref='DESIGN.md 5 C18')
 
+CLAIMED['C01'] = dict(
+    text='Executable model of labels()/inc/dec/set/observe/reset/info/state/remove/clear and collect for the six metric classes, generic in an abstract value type; '
+         'theorems by induction over arbitrary operation histories: collect equals the reference spec of the accepted calls (collect_refines_spec), a raising call is a frame '
+         '(rejected_is_frame, rejected_never_changes_collect), ValueError exactly for the rejected shapes (rejected_iff_of_repaired), positional/keyword/stringified addressing '
+         'reaches one child (label_addressing), remove/clear exact and recreated children start at zero, histogram buckets cumulative with +Inf = _count. Guard operators, '
+         'check order and keyword ordering are re-extracted from metrics.py each run; ~1.5·10^4 histories (exhaustive depth 3 + random) compared step by step with the real classes '
+         'and judged by an independent Python reference written from the property text.',
+    note='Trusted: Lean kernel; IEEE addition itself (hardware on both sides; the theorems are about an abstract V with explicit le-transitivity / exact-counting hypotheses); '
+         'exemplars, set_function, _created values outside the statement; extractor; sampling correspondence.',
+    ref='DESIGN.md 5 C01')
+CLAIMED['C02'] = dict(
+    text='Lock skeletons of every listed method (which shared attribute is touched under which lock, user calls, yields, iteration) are re-extracted from values.py/metrics.py/registry.py '
+         'each run; WellLocked is decided on them (generated_well_locked, collect_paths_release_before_user_code) and meta-theorems over an interleaving semantics with a non-re-entrant lock '
+         'table hold for any number of threads, any programs and every schedule: mutual_exclusion, no_lost_update (+ commutative-monoid sum), reads_are_held_values, reads_monotone, '
+         'one_shared_child, no_iteration_error, deadlock_free, reentrant_collect_never_blocks; both value back-ends. A deterministic bytecode-level scheduler runs real threads on the real code '
+         '(all schedules up to a pre-emption bound + seeded random) with an independent oracle, and every observed outcome must lie in the outcome set the model computes.',
+    note='PARTIAL by nature: the theorems are about the extracted skeletons; that a thread switch falls only between bytecodes, that += is load/add/store, that the skeleton lists every shared '
+         'access, threading.Lock semantics and mmap visibility across threads are runtime facts sampled by the scheduler harness, not proved.',
+    ref='DESIGN.md 5 C02',
+    technique='Lean 4 theorems about an interleaving semantics over lock skeletons extracted from the source (T1) + decidable WellLocked on the generated skeletons + bytecode-level deterministic scheduler on the real code (T2)')
+CLAIMED['C05'] = dict(
+    text='An independent executable line grammar (Spec/LineGrammar) and theorems for ALL strings in every user-controlled position: escape output has no raw LF and only escaped quotes, '
+         'any label name / metric name renders as exactly one grammar item (any_label_name_is_safe, any_metric_name_is_safe), the text exposition splits on LF into exactly the expected lines, '
+         'each recognised (text_lines_exact), OpenMetrics likewise ending in exactly one # EOF (om_lines_exact_partial, om_single_eof_partial: hypothesis on the unit = known finding F4), '
+         'constructor-accepted inputs expose without error, Graphite sanitiser whitelist and one line per sample. Regex anchors, escape chains and the Graphite class are re-extracted each run; '
+         'real expositions over an adversarial alphabet in every position are fed to an independent Python recogniser.',
+    note='Known findings (listed, reproduced each run): C05:unit-raw (F4), C05:graphite-empty-path (G2). Graphite prefix is operator configuration, outside the quantifier (documented limit). '
+         'Number tokens come from C13. Trusted: Lean kernel, extractor, sampling correspondence.',
+    ref='DESIGN.md 5 C05')
+CLAIMED['C06'] = dict(
+    text='Executable model of register/unregister/set_target_info/_get_names in Python statement order; invariant Inv (name map = graph of the collector map + target_info iff set, keys distinct) '
+         'proved for every history (inv_run, no_double_claim_run), raising calls are frames (register_clash_is_frame, targetinfo_clash_is_frame), a clash raises iff a name is taken, '
+         'unregister_releases_exactly, suffix table = the table in the property statement (suffix_table_is_spec). The suffix table and loop shape are re-extracted each run; ~1.4·10^4 histories '
+         '(exhaustive depth 3 over a clash-rich alphabet + random + built-in classes) compared after every step, with an independent claims oracle on the real registry.',
+    note='Trusted: Lean kernel; describe()/collect() of a collector are data of the model; extractor; sampling correspondence.',
+    ref='DESIGN.md 5 C06')
+CLAIMED['C07'] = dict(
+    text='collect_exact (target info, then every registered collector once in registration order, nothing from unregistered ones — for every history), restricted_metric_spec, '
+         'restricted_is_filter (restricted collect is a permutation of the per-sample-name filter of the full collection keeping name, type, help and unit, empty families dropped) under the '
+         'explicit precondition ClaimsCover, restricted_calls_only_claimants. Real registries × name subsets (exhaustive for ≤ 8 names + random) judged by an independent filter oracle with '
+         'call counting.',
+    note='ClaimsCover (a collector only emits sample names it claimed) is a genuine precondition, checked per generated registry, not proved for the built-in classes. The HTTP name[] mapping is C17.',
+    ref='DESIGN.md 5 C07')
+CLAIMED['C10'] = dict(
+    text='Byte-level model of MmapedDict (layout, padding, doubling loop, positions, the three readers) with layout arithmetic re-extracted from mmap_dict.py; theorems for all write/read/reopen '
+         'histories, all key lengths and all bit patterns: WF invariant, step refinement to an insertion-ordered map (inv_step, abs_step, run_refines), read_all_eq_spec, reader_agrees, '
+         'reopen_preserves, growth_terminates, first-write order and last-write-wins. Real store vs model on histories over keys of every length mod 8, multi-byte keys, growth with small and real '
+         'initial size, NaN payloads/-0.0/subnormals compared as raw bytes.',
+    note='Assumption Fits: the file stays below 2^31 bytes (the header is a signed 32-bit int; the real code raises struct.error beyond — observed once, not reproduced per run). Trusted: struct '
+         'little-endian layout, ftruncate zero-extension, UTF-8 facts from Lean core; extractor; sampling correspondence.',
+    ref='DESIGN.md 5 C10')
+CLAIMED['C11'] = dict(
+    text='Every writer operation of the C10 model returns its ordered file effects, the order being re-extracted from the source (skeleton_wellformed: entry before header, one 16-byte slice '
+         'per value update, while-loop growth, short-file guard); theorems for every history and EVERY cut point: every_cut_readable (the reader succeeds and returns a prefix state, optionally '
+         'plus the in-flight key at zero), every_cut_reopenable, never_written_never_read, value_update_single_effect, one_file_cannot_fail_scrape. The real effect trace is recorded, every '
+         'prefix materialised and given to the real reader, collector and reopen; thorough tier kills forked writers with SIGKILL.',
+    note='Trusted: one mmap slice assignment is indivisible at the granularity of the property ("between consecutive file effects"); page-cache visibility; json key decoding in the collector not modelled.',
+    ref='DESIGN.md 5 C11')
+CLAIMED['C16'] = dict(
+    text='Protocol model of Timer / InprogressTracker / ExceptionCounter (flags re-extracted from context_managers.py) and of decorator.FunctionMaker signature forwarding; theorems by mutual '
+         'induction over arbitrary call trees, clocks and exception classes: transparent (same value / same exception object), inprogress_balanced, one_observation_per_call with non-negative '
+         'clamped durations (timer_exact), exception_counted_iff, forward_roundtrip, bind failures are TypeError; *_partial theorems carry exactly the known-finding hypotheses with kernel-checked '
+         'counter-examples. exec-generated callables with all parameter kinds, scripted bodies and clocks are run through the real wrappers with an identity/metric-delta oracle.',
+    note='Known findings (vendored decorator.py, listed): F13 positional-only/keyword clash, F22 keyword-only _call_/_func_, F23 lambda renamed. exec-generated wrapper source and CPython binding are modelled, '
+         'not verified; async/generator bodies not modelled.',
+    ref='DESIGN.md 5 C16')
+
 PENDING_REASON = 'not claimed yet: model/theorems for this property are not built at this commit (work order in DESIGN.md 8); no other technique is substituted'
 
 
